@@ -94,10 +94,87 @@ def clash_check():
                     "scenario": "clash"}
         if "struct R { c @0: Nope, }" not in s:
             return {"check": "diagnostic cites a line of the wrong source file", "observed": s[:300], "scenario": "clash"}
+        f = relpath_check(d)
+        if f:
+            return f
     except BaseException as e:
         return {"check": "an exception escaped", "observed": type(e).__name__ + ": " + str(e)[:200], "scenario": "clash"}
     finally:
         shutil.rmtree(d, ignore_errors=True)
+    return None
+
+
+def _render(root, expect_line):
+    lg = Logger({})
+    r = get_fcp(root, lg)
+    if r.is_ok():
+        return "schema with an error accepted"
+    try:
+        s = lg.error(r.err())
+    except BaseException as e:
+        return "the error value cannot be rendered: " + type(e).__name__ + ": " + str(e)[:200]
+    if expect_line not in s:
+        return "diagnostic does not cite the line of the named file: " + s[-300:]
+    return None
+
+
+def relpath_check(d):
+    """C11: schemas named by paths relative to the current directory (as on the command line), modules sharing a file name"""
+    cwd = os.getcwd()
+    os.chdir(d)
+    try:
+        # (fixed F25) root given by a bare name, importing a module with the same file name
+        os.makedirs("y")
+        open("main.fcp", "w").write('version: "3"\nmod y.main;\n\nstruct Top {\n    x @0: u8,\n    w @1: Missing,\n}\n')
+        open(os.path.join("y", "main.fcp"), "w").write('version: "3"\nenum K { A = 0, }\n')
+        w = _render("main.fcp", "w @1: Missing,")
+        if w:
+            return {"check": "root `main.fcp` importing y/main.fcp: " + w, "scenario": "clash"}
+        # root in a sub-directory of the cwd; two modules named common.fcp, the first truncated, the second shorter
+        for sub in ("proj/a", "proj/b"):
+            os.makedirs(sub)
+        open("proj/a/common.fcp", "w").write('version: "3"\n\nenum Mode {\n    Off = 0,\n    On = 1,\n}\nstruct Broken {')
+        open("proj/b/common.fcp", "w").write('version: "3"\nenum Kind { K = 0, }\n')
+        open("proj/b/main.fcp", "w").write('version: "3"\nenum Kind2 { K = 0, }\n')
+        open("proj/main.fcp", "w").write('version: "3"\nmod b.common;\nmod a.common;\n')
+        w = _render("proj/main.fcp", "struct Broken {")
+        if w:
+            return {"check": "proj/main.fcp importing b/common.fcp then truncated a/common.fcp: " + w, "scenario": "clash"}
+        open("proj/main.fcp", "w").write('version: "3"\nmod b.main;\n\nstruct Top {\n    x @0: u8,\n    w @1: Missing,\n}\n')
+        w = _render("proj/main.fcp", "w @1: Missing,")
+        if w:
+            return {"check": "proj/main.fcp importing b/main.fcp, error on line 6 of the root: " + w, "scenario": "clash"}
+    finally:
+        os.chdir(cwd)
+    return None
+
+
+def history_check():
+    """C08 over a history: the verdict on a schema does not depend on what the same process parsed before"""
+    seq = [('version: "3"\nstruct Status { a @0: u8, }\nstruct T { s @0: Status, o @1: Optional[[Status, 2]], }\n', "ok", None),
+           ('version: "3"\nstruct Telemetry { s @0: Optional[[Status]], }\n', "err", "Status"),
+           ('version: "3"\nenum Status { A = 0, B = 1, }\nstruct U { a @0: [Status, 2], }\n', "ok", None),
+           ('version: "3"\nstruct V { a @0: Status, }\nenum Status { A = 0, }\n', "err", "Status"),
+           ('version: "3"\nenum T { A = 0, }\nstruct W { a @0: [T], }\n', "ok", None)]
+    for text, want, name in seq:
+        lg = Logger({})
+        try:
+            r = get_fcp_from_string(text, lg)
+        except BaseException as e:
+            return {"check": "an exception escaped (sequence of parses in one process)", "observed": type(e).__name__, "scenario": "history", "text": text}
+        if want == "ok":
+            if not r.is_ok():
+                return {"check": "valid schema rejected after earlier parses in the same process", "scenario": "history", "text": text}
+            w = dangling(r.unwrap())
+            if w:
+                return {"check": "accepted schema has an unresolved or mis-kinded reference after earlier parses in the same process",
+                        "observed": w, "scenario": "history", "text": text}
+        else:
+            if r.is_ok():
+                return {"check": "reference to an undeclared type accepted after an earlier parse declared that name", "scenario": "history",
+                        "text": text}
+            if name not in lg.error(r.err()):
+                return {"check": "resolution error does not name the type", "scenario": "history", "text": text}
     return None
 
 
@@ -149,7 +226,7 @@ def search(pid, seed, tier, skip):
         f = one(t)
         if f:
             return {"failure": f, "tried": n}
-    f = split_check() or clash_check()
+    f = split_check() or clash_check() or history_check()
     if f:
         return {"failure": f, "tried": n}
     return {"failure": None, "tried": n}
@@ -161,8 +238,8 @@ if __name__ == "__main__":
         print(json.dumps(search(sys.argv[2], int(sys.argv[3]), sys.argv[4], sys.argv[5:]), default=str))
     elif cmd == "replay":
         r = json.loads(sys.argv[2])
-        print(json.dumps({"fails": (one(r["input"]) if "input" in r else (clash_check() if r.get("scenario") == "clash" else split_check())) is not None}))
+        print(json.dumps({"fails": (one(r["input"]) if "input" in r else (clash_check() if r.get("scenario") == "clash" else (history_check() if r.get("scenario") == "history" else split_check()))) is not None}))
     elif cmd == "witness":
         # regression witnesses of repaired findings (known_findings.json "fixed" entries with a witness id)
-        f = clash_check() if sys.argv[2] == "F24" else None
+        f = clash_check() if sys.argv[2] in ("F24", "F25") else None
         print(json.dumps({"fails": f is not None, "failure": f}, default=str))
